@@ -34,19 +34,6 @@ open Ariadne.BaseClient (PV)
 
 /-! ### validation side -/
 
-/-- annotation language of generated *result* classes, in normal form; a class is inlined as the
-    list of its fields (response key = alias, annotation) -/
-inductive RAnn where
-  | leaf (l : Leaf) (opt : Bool)
-  | list (item : RAnn) (opt : Bool)
-  | obj (fields : List (String × RAnn)) (opt : Bool)
-  deriving Inhabited
-
-/-- one recorded `parse(raw)` call -/
-structure ParseCall where
-  fn : String
-  raw : J
-
 structure VOut where
   calls : List ParseCall
   ok : Bool
